@@ -512,11 +512,10 @@ class Lattice(keras.layers.Layer):
 
     Returns:
       In eager mode directly updates weights and returns variable which stores
-      them. In graph mode returns `assign_add` op which has to be executed to
+      them. In graph mode returns `assign` op which has to be executed to
       updates weights.
     """
-    return self.kernel.assign_add(
-        self._final_constraints(self.kernel) - self.kernel)
+    return self.kernel.assign(self._final_constraints(self.kernel))
 
   def assert_constraints(self, eps=1e-6):
     """Asserts that weights satisfy all constraints.
